@@ -13,6 +13,7 @@ import (
 	"time"
 
 	"github.com/johannesboyne/gofakes3/internal/goskipiter"
+	"github.com/johannesboyne/gofakes3/internal/verifhook"
 	"github.com/ryszard/goskiplist/skiplist"
 )
 
@@ -383,6 +384,7 @@ func (u *uploader) UploadPart(bucket, object string, id UploadID, partNumber int
 	if len(body) != int(contentLength) {
 		return "", ErrIncompleteBody
 	}
+	verifhook.Gate("uploader.UploadPart.afterRead")
 	u.mu.Lock()
 	defer u.mu.Unlock()
 	mpu, err := u.getUnlocked(bucket, object, id)
